@@ -12,7 +12,7 @@
 
 namespace opensmt {
 
-   class strConvException : std::exception {
+   class strConvException : public std::exception {
         char *reason;
     public:
         strConvException(const char *reason_) {
@@ -38,6 +38,7 @@ namespace opensmt {
 
     bool static inline isIntString(char const *str) {
         if (str[0] == '\0') return false;
+        if (str[0] == '-' and str[1] == '\0') return false; // a sign alone is not an integer
 
         for (int i = str[0] == '-' ? 1 : 0; str[i] != '\0'; i++) {
             if (not isDigit(str[i])) {
@@ -159,6 +160,12 @@ namespace opensmt {
         }
 
         if (is_frac) {
+            // The numerator must not be empty and the denominator must be a non-zero number
+            const char * bar = flo;
+            while (*bar != '/') { ++bar; }
+            bool nonZeroDenominator = false;
+            for (const char * c = bar + 1; *c != '\0'; ++c) { nonZeroDenominator |= isPosDig(*c); }
+            if (bar == flo or not nonZeroDenominator) { throw strConvException(flo); }
             normalize(rat, flo, is_neg);
             return true;
         }
